@@ -103,7 +103,13 @@ func New(ctx context.Context, p peer.ID, network MessageNetwork, allocator Alloc
 func (mq *MessageQueue) AllocateAndBuildMessage(size uint64, buildMessageFn func(*Builder)) {
 	if size > 0 {
 		select {
-		case <-mq.allocator.AllocateBlockMemory(mq.p, size):
+		case err := <-mq.allocator.AllocateBlockMemory(mq.p, size):
+			if err != nil {
+				// the reservation was refused (the peer's memory was released
+				// because its queue shut down): nothing may be queued without it
+				log.Infof("cant allocate memory for message to peer %s: %s", mq.p, err)
+				return
+			}
 		case <-mq.ctx.Done():
 			return
 		}
